@@ -56,7 +56,7 @@ CHECKS = {
    ref="5/C19"),
  "C20": dict(
    technique="runtime monitoring with a deterministic scheduler over hooked yield points (depth-first enumeration of the interleavings of two readers up to a budget, seeded sampling of pairs and triples) plus free-running stress with injected yields; oracle: every thread's result equals the result of the same call running alone before and after, and the hooked dump of the store is unchanged; for stores with changed stand-off members, what a reader leaves on disk must not depend on which other reader ran before it (sequential, fresh store per order). Thorough adds Miri and ThreadSanitizer runs of the reader workloads when the tools build",
-   text="Reader operations (store.to_json_string, ToJson::to_json_string on a resource and a dataset, ToJson::to_json_file on a resource, ToCsv::to_csv_string on a dataset and on the store, TextResource::to_json_string, a SELECT query, QueryResultItem::to_json_string, related_text, the .parallel() adaptors) run as 2-3 threads over one shared store with inline members, with stand-off members (unchanged and changed); every thread parks at each read or write of the shared serialisation mode and of the changed flags and a controller grants single steps; all pairs of operations are enumerated (exhaustively where the schedule tree is small, else up to the budget, then sampled), triples are sampled, and 4-12 free-running threads stress the same pairs. Held except the recorded finding (serialising a resource or dataset toggles the mode cell shared by all clones of the configuration).",
+   text="Reader operations (store.to_json_string, ToJson::to_json_string on a resource and a dataset, ToJson::to_json_file on a resource, ToCsv::to_csv_string on a dataset and on the store, TextResource::to_json_string, a SELECT query, QueryResultItem::to_json_string, related_text, the .parallel() adaptors) run as 2-3 threads over one shared store with inline members, with stand-off members (unchanged, changed, with a STAM JSON resource, with use_include switched off, with file:// URLs as member names); every thread parks at each read or write of the shared serialisation mode and of the changed flags and a controller grants single steps; all pairs of operations are enumerated (exhaustively where the schedule tree is small, else up to the budget, then sampled), triples are sampled, and 4-12 free-running threads stress the same pairs. Held except the recorded finding (serialising a resource or dataset toggles the mode cell shared by all clones of the configuration).",
    note="Trusted: the yield points of the verif feature cover every access to Config.serialize_mode and the changed flags; code between yield points is atomic in the controlled schedules and only exercised by the stress runs and the sanitizers. rayon worker threads are not scheduled.",
    ref="5/C20"),
  "C15": dict(
